@@ -140,7 +140,43 @@ func (e *Engine) lookupFunc(pkg, key string) *ssa.Function {
 		e.funcs[fn.String()] = fn
 		return fn
 	}
+	if fn := e.promotedMethod(sp, key); fn != nil {
+		return fn
+	}
 	return nil
+}
+
+// promotedMethod resolves "(T).M" / "(*T).M" when T has no method M of its own any more but an embedded field promotes
+// one (e.g. after a method that shadowed the embedded type's method was deleted): the function under contract is then the
+// synthetic wrapper go/ssa builds for the promoted method, and it is verified against T's contract.
+func (e *Engine) promotedMethod(sp *ssa.Package, key string) *ssa.Function {
+	if !strings.HasPrefix(key, "(") {
+		return nil
+	}
+	close := strings.Index(key, ").")
+	if close < 0 {
+		return nil
+	}
+	recv := key[1:close]
+	meth := key[close+2:]
+	ptr := strings.HasPrefix(recv, "*")
+	recv = strings.TrimPrefix(recv, "*")
+	if strings.Contains(recv, "[") {
+		return nil
+	}
+	obj := sp.Pkg.Scope().Lookup(recv)
+	if obj == nil {
+		return nil
+	}
+	var T types.Type = obj.Type()
+	if ptr {
+		T = types.NewPointer(T)
+	}
+	sel := types.NewMethodSet(T).Lookup(sp.Pkg, meth)
+	if sel == nil || len(sel.Index()) < 2 {
+		return nil
+	}
+	return e.prog.MethodValue(sel)
 }
 
 func (e *Engine) relName(fn *ssa.Function) string {
